@@ -3,7 +3,8 @@
 R1.1 append discipline: who writes evlen / the buffer; copies tile the buffer in order
 R1.2 bounds of every copy into the event buffer and into the payload
 R1.3 flush writes exactly the buffered bytes, once; write_evbuf is a full-write loop
-R1.4 order on the auto-flush path: flush, then the user event, then the markers
+R1.4 the user's event is appended exactly once on every path; ovni_flush flushes on every path; nothing but
+     flush markers is added besides
 R1.5 only the library's own OF[ OF] (flush) and OM[ OM] OM= (mark API) events are added
 R1.6 the stream starts with the 8-byte header, written first
 """
@@ -44,8 +45,8 @@ def run(ctx):
     ctx.rule("R1.3", "every flush passes (start of buffer, evlen) to write_evbuf and then resets evlen to 0; "
              "write_evbuf loops on write(streamfd) advancing buffer and remaining size by the returned count, "
              "leaves only when nothing remains, and dies on a negative return")
-    ctx.rule("R1.4", "ovni_ev_add / ovni_ev_add_jumbo append the user's event exactly once on every path; when "
-             "they flush, the flush comes first and the OF[ OF] markers after the user event")
+    ctx.rule("R1.4", "ovni_ev_add / ovni_ev_add_jumbo append the user's event exactly once on every path and add "
+             "nothing else but flush markers; ovni_flush flushes on every path")
     ctx.rule("R1.5", "the only events libovni itself creates are OF[ OF] (ovni_flush, add_flush_events) and "
              "OM[ OM] OM= (the three mark functions); the MCV bytes are written only by ovni_ev_set_mcv")
     ctx.rule("R1.6", "write_stream_header stores the magic 'ovni' and version at offsets 0 and 4, 8 bytes in "
@@ -116,14 +117,11 @@ def run(ctx):
         final = o.store.get(EVLEN, TOP)
         ctx.check(rt.le(o.cons, final, INT(cap - 1)) is True, "R1.2", inst + ":evlen<cap", fn.loc(),
                   "evlen can reach %s >= capacity %d on exit" % (_s(final), cap))
-        users = [d for d in desc if d == "user-event"]
-        if "flush" in desc:
-            good = desc == ["flush", "user-event", "OF[", "OF]"]
-            ctx.check(good, "R1.4", inst + ":order", fn.loc(),
-                      "auto-flush path appends %s; expected flush, user event, OF[, OF]" % desc)
-        else:
-            ctx.check(desc == ["user-event"], "R1.4", inst + ":order", fn.loc(),
-                      "non-flushing path appends %s; expected exactly the user event" % desc)
+        # the user's event exactly once; anything else the call adds is a flush marker (where the markers
+        # go relative to the user's event is a matter of clock order: C02 R2.2, not of fidelity)
+        rest = [d for d in desc if d not in ("flush", "OF[", "OF]")]
+        ctx.check(rest == ["user-event"], "R1.4", inst + ":order", fn.loc(),
+                  "the call appends %s; expected the user's event exactly once plus flush markers only" % desc)
     if outs:
         ctx.check(any("flush" in k for k in seen) and any("flush" not in k for k in seen), "R1.4",
                   "ovni_ev_add:both-arms", fn.loc(), "flush / no-flush arms explored: %s" % sorted(seen))
@@ -151,9 +149,10 @@ def run(ctx):
         core = [d for d in desc if d in ("user-event", "jumbo-data")]
         ctx.check(core == ["user-event", "jumbo-data"], "R1.4", inst + ":user-event-once", fn.loc(),
                   "jumbo path appends %s; expected the event header then its data, once" % desc)
-        if "flush" in desc and not nested:
-            ctx.check(desc == ["flush", "user-event", "jumbo-data", "OF[", "OF]"], "R1.4", inst + ":order", fn.loc(),
-                      "auto-flush path appends %s" % desc)
+        rest = [d for d in desc if d not in ("flush", "OF[", "OF]")]
+        if not nested:
+            ctx.check(rest == ["user-event", "jumbo-data"], "R1.4", inst + ":order", fn.loc(),
+                      "the call appends %s; expected the jumbo event and its data once plus flush markers only" % desc)
         # the jumbo flag and the size field
         for kind, mcv, clock, d in app:
             if kind == "append" and d["src"] == PTR("EV"):
@@ -170,8 +169,8 @@ def run(ctx):
         desc = describe(app)
         inst = "ovni_flush:" + ">".join(desc)
         ctx.check(not probs, "R1.1", inst, fn.loc(), "; ".join(probs))
-        ctx.check(desc == ["flush", "OF[", "OF]"], "R1.4", inst + ":order", fn.loc(),
-                  "ovni_flush performs %s; expected flush then OF[ OF]" % desc)
+        ctx.check("flush" in desc and all(d in ("flush", "OF[", "OF]") for d in desc), "R1.4", inst + ":order", fn.loc(),
+                  "ovni_flush performs %s; expected a flush on every path and nothing but flush markers added" % desc)
 
     # ---- R1.2 ovni_payload_add --------------------------------------------------------------
     pa = prog.fn("ovni_payload_add", OV)
@@ -296,7 +295,7 @@ def _hdr_off(prog, dest):
     return off
 
 
-def _check_write_loop(ctx, prog, eff, cap, wf):
+def _check_write_loop(ctx, prog, eff, cap, wf, rule="R1.3"):
     """write_evbuf: argument discipline of successive write() calls, exit only when all is written."""
     # exact argument discipline on a single straight path (two iterations)
     notes = []
@@ -340,17 +339,17 @@ def _check_write_loop(ctx, prog, eff, cap, wf):
             total = rt.add(total, ("lin", 0, (("x%d" % w["k"], 1),)))
         if ws:
             n_checked += 1
-            ctx.check(not probs, "R1.3", "write_evbuf:args:path%d" % n_checked, wf.loc(), "; ".join(probs))
+            ctx.check(not probs, rule, "write_evbuf:args:path%d" % n_checked, wf.loc(), "; ".join(probs))
         if o.kind in ("ret", "exit") and not any(d[0] == "loop-exit" for d in o.decisions) and ws:
             # real exit: everything written
             lt = absint.to_lin(total)
-            ctx.check(rt.eq(o.cons, total, size0) is True, "R1.3", "write_evbuf:exit-when-all-written:path%d" % n_checked,
+            ctx.check(rt.eq(o.cons, total, size0) is True, rule, "write_evbuf:exit-when-all-written:path%d" % n_checked,
                       wf.loc(), "the loop can end with %s of %s bytes written" % (_s(total), _s(size0)))
     # a negative return must die: explore with write() always failing
     ex = absint.Explorer(prog, effects=eff, summaries={"write": lambda ex_, st, args, f, e: [(INT(-1), {})]},
                          loop_bound=3)
     size0 = ex.sym("size0", 1, cap)
     outs = ex.run(wf, [PTR("EVBUF", (0,)), size0], {(RT, F("ovni_rthread", "streamfd")): INT(7)})
-    ctx.check(outs and all(o.kind == "die" for o in outs), "R1.3", "write_evbuf:error-dies", wf.loc(),
+    ctx.check(outs and all(o.kind == "die" for o in outs), rule, "write_evbuf:error-dies", wf.loc(),
               "a failing write() does not abort: flushed events would be lost silently")
-    ctx.check(n_checked >= 2, "R1.3", "write_evbuf:explored", wf.loc(), "too few paths explored")
+    ctx.check(n_checked >= 2, rule, "write_evbuf:explored", wf.loc(), "too few paths explored")
